@@ -148,7 +148,7 @@ JudgeMatrix(e, k) ==
             ELSE LET D == {j \in 1..Len(e.mcalls) : e.mcalls[j].src = "data" /\ e.mcalls[j].m = mc.m} IN
                  IF D # {} /\ (LET d == e.mcalls[CHOOSE j \in D : TRUE] IN
                                  d.raised = mc.raised /\ (d.item = mc.item \/ (d.item > 0 /\ mc.item > 0 /\
-                                     LET a == e.mpool[d.item]  b == e.mpool[mc.item] IN SameCells(a, b) /\ NameOf(a) = NameOf(b) /\ a.type = b.type)))
+                                     LET a == e.mpool[d.item]  b == e.mpool[mc.item] IN SameCells(a, b) /\ NameOf(a) = NameOf(b) /\ a.type = b.type /\ a.sets = b.sets)))
                  THEN None ELSE V("C13.SourceDispatch", cls \o ":" \o mc.src)
     IN
     dispatch \o
@@ -158,6 +158,7 @@ JudgeMatrix(e, k) ==
           IF x.items[1] = mc.item THEN None
           ELSE IF Len(a.rows) # Len(b.rows) THEN V("C13.MatrixAloneEqualsMatrixInDataSet", cls \o ":rows")
           ELSE IF ~SameCells(a, b) THEN V("C13.MatrixAloneEqualsMatrixInDataSet", cls \o ":cells")
+          ELSE IF a.sets # b.sets THEN V("C13.MatrixAloneEqualsMatrixInDataSet", cls \o ":character-sets")
           ELSE IF NameOf(a) # NameOf(b) \/ a.type # b.type THEN V("C13.MatrixAloneEqualsMatrixInDataSet", cls \o ":label")
           ELSE IF e.shared /\ \E i \in 1..Len(a.rows) : a.rows[i].tx # b.rows[i].tx
                THEN V("C13.SameTaxaWhenShared", Family(e, "CharMatrixGet") \o ":same-labels-other-taxon-objects")
@@ -169,7 +170,7 @@ JudgeRef(e) ==
         want == DocNames(e.doc, e.fmt)
         colls == e.ref.colls
     IN
-    IF e.ref.raised # "" THEN V("C13.SameTrees", cls \o ":raised-" \o e.ref.raised)
+    IF e.ref.raised # "" THEN V("C13.SameTrees", cls \o ":raised-" \o e.ref.raised \o (IF e.ref.alt = "" THEN ":while-TreeListGet-delivers" ELSE ":TreeListGet-raised-" \o e.ref.alt))
     ELSE IF [k \in 1..Len(colls) |-> Len(colls[k])] # [k \in 1..Len(want) |-> Len(want[k])] THEN V("C13.SameTrees", cls \o ":collections-vs-source")
     ELSE IF \A k \in 1..Len(colls) : \A i \in 1..Len(colls[k]) :
                NameOf(e.pool[colls[k][i]]) = (IF e.fmt = "newick" THEN "\\None" ELSE want[k][i])
